@@ -436,14 +436,15 @@ class _LazyConn(object):
 
 def db_cases(tier):
     for handle in ("connection", "cursor", "cursorfn"):
-        for k in (0, 1, 3, 5):
+        for k in (0, 1, 3, 5, 99, 100, 101, 150, 1000, 1001, 1500):
             for stage in ("none", "convert"):
                 yield {"handle": handle, "k": k, "stage": stage}
 
 
 def check_db(case, ctx):
     res = []
-    for n in (50, 5000):
+    # (k beyond 50: the result sets are k + 500 and k + 5000 rows, so that the k rows never exhaust them)
+    for n in ((50, 5000) if case["k"] < 40 else (case["k"] + 500, case["k"] + 5000)):
         conn = _LazyConn(n)
         dbo = conn if case["handle"] == "connection" else conn.cursor() if case["handle"] == "cursor" else (lambda: conn.cursor())
         try:
@@ -463,7 +464,7 @@ def check_db(case, ctx):
     if o1 != o2 or (o1 and o1[0] != ("a", "b")):
         return Fail("fromdb/%s/prefix-differs" % case["handle"], "%r vs %r" % (o1, o2))
     if f1 != f2:
-        return Fail("fromdb/%s/fetches-depend-on-length" % case["handle"], "%d rows fetched %d of 50 but %d of 5000 result rows" % (case["k"] + 1, f1, f2))
+        return Fail("fromdb/%s/fetches-depend-on-length" % case["handle"], "%d rows fetched %d of the shorter but %d of the longer result set" % (case["k"] + 1, f1, f2))
     if f2 > case["k"] + 3:
         return Fail("fromdb/%s/fetches-exceed-bound" % case["handle"], "%d rows fetched %d result rows" % (case["k"] + 1, f2))
     return None
